@@ -4,9 +4,11 @@ import (
 	"bytes"
 	"encoding/base64"
 	"fmt"
+	"github.com/gdamore/tcell/v2"
 	"math/rand/v2"
 	"sort"
 	"strings"
+	"time"
 
 	"github.com/gdamore/tcell/v2/terminfo"
 
@@ -231,6 +233,10 @@ func C02(r *core.Run) {
 			}
 			for i := 0; i < n; i++ {
 				rg := r.Rand("tok", ti.Name, cs, i)
+				// decoding must not depend on the modes the application has switched on
+				modeSet := rg.IntN(8)
+				d.modes([]tcell.MouseFlags{0, tcell.MouseButtonEvents, tcell.MouseDragEvents | tcell.MouseButtonEvents, tcell.MouseMotionEvents}[modeSet%4], modeSet&4 != 0, modeSet&2 != 0 || modeSet == 7)
+				r.Count(fmt.Sprintf("token_strings_mode_set_%d", modeSet), 1)
 				nt := 1 + rg.IntN(6)
 				var ts []token
 				allOK := true
@@ -300,6 +306,52 @@ func C02(r *core.Run) {
 					r.Sample(6, map[string]any{"kind": "tokens", "entry": ti.Name, "tokens": tokBytes(ts)})
 				}
 			}
+			// a long clipboard reply (OSC 52 with several kilobytes of payload): one event however
+			// it is cut, in particular in the 128-byte reads of the real reader
+			if strings.Contains(ti.Name, "xterm") || ti.XTermLike {
+				rg := r.Rand("clip", ti.Name, cs)
+				for _, size := range []int{300, 3000, 3300, 6000} {
+					raw := make([]byte, size)
+					for k := range raw {
+						raw[k] = byte('a' + rg.IntN(26))
+					}
+					for _, term := range []string{"\x07", "\x1b\\"} {
+						rep := []byte("x\x1b]52;c;" + base64.StdEncoding.EncodeToString(raw) + term + "y")
+						whole, left, pan := d.whole(rep)
+						nclip := 0
+						for _, e := range whole {
+							if e.T == "clip" {
+								nclip++
+							}
+						}
+						if pan != nil || left != 0 || nclip != 1 || len(whole) != 3 {
+							// the entry does not decode clipboard replies (no OSC 52 support): nothing to compare
+							continue
+						}
+						var p128 [][]byte
+						for o := 0; o < len(rep); o += 128 {
+							p128 = append(p128, rep[o:min(o+128, len(rep))])
+						}
+						parts := [][][]byte{p128}
+						for k := 0; k < 4; k++ {
+							var cuts []int
+							for c := 1 + rg.IntN(200); c < len(rep); c += 1 + rg.IntN(900) {
+								cuts = append(cuts, c)
+							}
+							parts = append(parts, partitionAt(rep, cuts))
+						}
+						for _, ps := range parts {
+							got, left, pan := d.chunks(ps)
+							r.Count("partitions", 1)
+							if pan != nil || left != 0 || !evsEq(got, whole) {
+								r.Violate("chunking:long-clipboard-reply", fmt.Sprintf("%s/%s: a clipboard reply with %d bytes of data decodes to 3 events in one read, but to %d events (%s...) when read in %d pieces (first piece %d bytes; leftover %d, panic %v)", ti.Name, cs, size, len(got), short(evsStr(got), 200), len(ps), len(ps[0]), left, pan), map[string]any{"entry": ti.Name, "size": size})
+								break
+							}
+						}
+						r.Case(fmt.Sprintf("clip|%s|%s|%d|%q", ti.Name, cs, size, term))
+					}
+				}
+			}
 			// random bytes
 			const al = "\x1b\x1b\x1b\x1b[[[<<;;Mm0123456789-]52c=\x07\\~OPI\x9b\xff\xc3\xa9\xe4\xb8\x96abc \x00\x7f\x01\r"
 			nb := perEntry
@@ -308,6 +360,7 @@ func C02(r *core.Run) {
 			}
 			for i := 0; i < nb; i++ {
 				rg := r.Rand("rnd", ti.Name, cs, i)
+				d.modes([]tcell.MouseFlags{0, tcell.MouseMotionEvents}[i%2], i%4 >= 2, i%8 >= 4)
 				n := 1 + rg.IntN(14)
 				b := make([]byte, n)
 				for k := range b {
@@ -337,6 +390,81 @@ func C02(r *core.Run) {
 	c02pipeline(r)
 	// a sequence split across two reads while the main loop is held up past the escape timer
 	c05stall(r)
+	c02fullRead(r)
+}
+
+// c02fullRead: "consumes every byte": input that ends in a lone ESC is completed by the escape
+// timeout without any further input, whatever the sizes of the reads that brought it (the real
+// reader takes at most 128 bytes at a time; a read that fills its buffer is a boundary case).
+func c02fullRead(r *core.Run) {
+	ti := Pristine("xterm-256color")
+	sizes := []int{1, 2, 64, 127, 128, 129, 255, 256, 257, 384}
+	for rep := 0; rep < r.Pick(1, 10); rep++ {
+		for _, n := range sizes {
+			ls, err := startScreen(ti, 40, 10, nil)
+			if err != nil {
+				r.Inconclusive(err.Error())
+				return
+			}
+			evc := make(chan NEv, 1024)
+			go func() {
+				for {
+					ev := ls.s.PollEvent()
+					if ev == nil {
+						close(evc)
+						return
+					}
+					if _, isResize := ev.(*tcell.EventResize); !isResize {
+						evc <- normEv(ev)
+					}
+				}
+			}()
+			in := append(bytes.Repeat([]byte("a"), n-1), 0x1b)
+			for o := 0; o < len(in); o += 128 {
+				ls.tty.Feed(in[o:min(o+128, len(in))])
+			}
+			var got []NEv
+			deadline := time.After(15 * time.Second)
+			timedOut := false
+			for len(got) < n && !timedOut {
+				select {
+				case e, ok := <-evc:
+					if !ok {
+						timedOut = true
+						break
+					}
+					got = append(got, e)
+				case <-deadline:
+					timedOut = true
+				}
+			}
+			verdict := ""
+			if timedOut {
+				if lost, w := ls.sentinelLost(); lost {
+					verdict = fmt.Sprintf("%d of %d events were delivered and the library is idle (%s): the ESC at the end of the input never expires", len(got), n, w)
+				} else {
+					r.Inconclusive(fmt.Sprintf("full-read scenario n=%d: watchdog", n))
+				}
+			} else {
+				for i, e := range got {
+					if i < n-1 && !(e.T == "key" && e.Key == tcell.KeyRune && e.Rune == 'a' && e.Mod == 0) {
+						verdict = fmt.Sprintf("event %d is %s, expected the rune a", i, e)
+						break
+					}
+					if i == n-1 && !(e.T == "key" && e.Key == tcell.KeyEsc && e.Mod == 0) {
+						verdict = fmt.Sprintf("last event is %s, expected Esc", e)
+					}
+				}
+			}
+			ls.fini()
+			r.Case(fmt.Sprintf("fullread|%d|%d", n, rep))
+			r.Count("full_read_rounds", 1)
+			if verdict != "" {
+				r.Violate("timer:trailing-esc-after-reads", fmt.Sprintf("xterm-256color: %d bytes (%d x 'a' then ESC) arriving in reads of at most 128 bytes, then silence: %s", n, n-1, verdict), nil)
+				return
+			}
+		}
+	}
 }
 
 func tokBytes(ts []token) []string {
